@@ -824,6 +824,12 @@ func (m *Manager) sessionTimer(id string, expired bool) {
 		m.sessionsCount.Done()
 		m.expiryCount.Done()
 		m.Metrics.Clients().OnRemoved(1)
+	} else {
+		// only a delayed will was pending and it has been published: the timer is gone
+		if obj, ok := m.sessions.Load(id); ok {
+			obj.(*container).expiry = atomic.Value{}
+		}
+		m.expiryCount.Done()
 	}
 }
 
